@@ -5,7 +5,7 @@ from common import Report, log
 
 MANIFEST = dict(
     technique='Coq proofs over ALL schedules and any number of goroutines (metrics update protocol as a small-step program regenerated from the source each run; goroutines over fresh pools; lockset discipline over the regenerated access table of every package-level variable; deadlock freedom by a rank on the mutexes over the regenerated table of Lock/RLock sites with may-held sets, sync.RWMutex writer preference modelled) + race-detector build and barrier-released rounds on the implementation',
-    text="Theorems: metrics_exact (every counter equals its initial value plus the sum of every call's adds, the largest/smallest query size are the true maximum/minimum, for every interleaving of the individual atomic operations of any number of concurrent Record* calls; proved generically for add-only locations and for the class of compare-and-swap retry loops (is_rmw_loop: a decidable abstract execution of the translated control-flow graph — any loop/break/continue/flag/helper layout, not one literal instruction list), instantiated on the programs translated from the current source of pkg/metrics and pkg/sql/monitor (metrics state found by role, same-package helpers inlined, short-circuit conditions as control flow), shape check discharged by complete evaluation); *_refuted (load-compare-store and a single swap attempt lose the extreme: concrete two-goroutine schedules); results_sequential (goroutines that share only pools of observationally fresh objects return what they return alone, any schedule); footprint_race_free (every access to package-level state that is written outside init is a pool/once/atomic/sync.Map operation or holds the variable's mutex in a mode excluding the conflicting access: lockset discipline on the access table regenerated from go/ssa). no_deadlock (lock discipline: any number of goroutines, each blocked one blocked at a Lock/RLock site of the acquisition table regenerated from go/ssa with only mutexes held that MAY be held there (a may-analysis: union at joins, through calls, deferred unlocks until return); sync.RWMutex semantics with writer preference; a rank computed as a topological order puts every acquired mutex strictly above everything that may be held, checked by complete evaluation: then whenever somebody is blocked, a blocked call can return or a lock holder is running — no state is a deadlock); *_refuted (the re-entrant read lock with a pending writer and the AB/BA inversion are deadlocks and admit no rank); when the table admits no rank the offending rows are named and goroutine mixes on the operations that reach the mutex run under a watchdog: a mix that does not finish is the replay, with the dump of the blocked goroutines. Implementation: translated programs are replayed sequentially against GetStats; barrier-released single-record rounds compare the totals with the true values after quiescence; N in {2, cores, 4*cores} goroutines run seeded mixes of tokenize/parse/format/extract/scan/lint/suggest/span/config/metrics-read under the race detector, every result compared with the sequential answer.",
+    text="Theorems: metrics_exact (every counter equals its initial value plus the sum of every call's adds, the largest/smallest query size are the true maximum/minimum, for every interleaving of the individual atomic operations of any number of concurrent Record* calls; proved generically for add-only locations and for the class of compare-and-swap retry loops (is_rmw_loop: a decidable abstract execution of the translated control-flow graph — any loop/break/continue/flag/helper layout, not one literal instruction list), instantiated on the programs translated from the current source of pkg/metrics and pkg/sql/monitor (metrics state found by role, same-package helpers inlined, short-circuit conditions as control flow), shape check discharged by complete evaluation); *_refuted (load-compare-store and a single swap attempt lose the extreme: concrete two-goroutine schedules); results_sequential (goroutines that share only pools of observationally fresh objects return what they return alone, any schedule); footprint_race_free (every access to package-level state that is written outside init is a pool/once/atomic/sync.Map operation or holds the variable's mutex in a mode excluding the conflicting access: lockset discipline on the access table regenerated from go/ssa). no_deadlock (lock discipline: any number of goroutines, each blocked one blocked at a Lock/RLock site of the acquisition table regenerated from go/ssa with only mutexes held that MAY be held there (a may-analysis: union at joins, through calls, deferred unlocks until return); sync.RWMutex semantics with writer preference; a rank computed as a topological order puts every acquired mutex strictly above everything that may be held, checked by complete evaluation: then whenever somebody is blocked, a blocked call can return or a lock holder is running — no state is a deadlock); *_refuted (the re-entrant read lock with a pending writer and the AB/BA inversion are deadlocks and admit no rank); no_lock_leak (no entry point of the library returns to its caller while a mutex it took may still be held — exit table regenerated from go/ssa, every return path unlocks or the unlock is deferred; then a goroutine outside the library holds nothing and the running lock holder of no_deadlock is inside the library; leaked_lock_blocks: a lock leaked to the caller makes every later Lock/RLock on it wait for ever); when the table admits no rank the offending rows are named and goroutine mixes on the operations that reach the mutex run under a watchdog: a mix that does not finish is the replay, with the dump of the blocked goroutines. Implementation: translated programs are replayed sequentially against GetStats; barrier-released single-record rounds compare the totals with the true values after quiescence; N in {2, cores, 4*cores} goroutines run seeded mixes of tokenize/parse/format/extract/scan/lint/suggest/span/config/metrics-read under the race detector, every result compared with the sequential answer.",
     note=common.BASE_NOTE + "sync/atomic operations are taken as sequentially consistent single steps and a critical section under the struct's mutex as one atomic step; the access table is complete for accesses reachable through package-level variables by field/index/pointer paths and direct calls (dynamic calls listed in evidence); 'no data race under the Go memory model' beyond that footprint rests on the race detector over the explored schedules, which is supporting evidence, not proof.",
     design='6/C10')
 
@@ -13,11 +13,12 @@ PROPS = ["Props.C10.C10_metrics_totals_exact", "Props.C10.C10_monitor_totals_exa
          "Props.C10.C10_max_load_compare_store_refuted", "Props.C10.C10_min_load_compare_store_refuted", "Props.C10.C10_max_single_attempt_refuted", "Props.C10.C10_stale_retry_never_returns",
          "Props.C10.C10_results_sequential", "Props.C10.C10_footprint_race_free", "Props.C10.C10_common_lock_orders",
          "Props.C10.C10_no_deadlock_by_lock_order", "Props.C10.C10_never_deadlocked", "Props.C10.C10_reentrant_read_lock_refuted",
-         "Props.C10.C10_lock_order_inversion_refuted"]
+         "Props.C10.C10_lock_order_inversion_refuted", "Props.C10.C10_no_lock_leak_outside_holds_nothing",
+         "Props.C10.C10_no_lock_leak_running_holder_is_inside", "Props.C10.C10_leaked_lock_blocks"]
 INST = ["Inst_C10.metrics_progs_ok", "Inst_C10.monitor_progs_ok", "Inst_C10.max_update_is_rmw_loop", "Inst_C10.min_update_is_rmw_loop",
-        "Inst_C10.tokenization_contributes", "Inst_C10.parse_contributes", "Inst_C10.globals_ok", "Inst_C10.lock_order_ok"]
+        "Inst_C10.tokenization_contributes", "Inst_C10.parse_contributes", "Inst_C10.globals_ok", "Inst_C10.lock_order_ok", "Inst_C10.no_lock_leak_ok"]
 # which public operations of the mix touch the state of a package (to aim the race-detector search at a broken table entry)
-PKG_OPS = {"pkg/config": ["config"], "pkg/errors": ["suggest", "parse"], "pkg/sql/ast": ["span", "parse", "extract"], "pkg/metrics": ["metrics", "tokenize", "parse"],
+PKG_OPS = {"pkg/config": ["config"], "pkg/errors": ["suggest", "parse"], "pkg/sql/ast": ["span", "span_zero", "parse", "extract"], "pkg/metrics": ["metrics", "tokenize", "parse"],
            "pkg/sql/security": ["scan"], "pkg/linter": ["lint"], "pkg/sql/tokenizer": ["tokenize"], "pkg/sql/parser": ["parse", "parse_ctx", "parse_hold", "recovery"],
            "pkg/gosqlx": ["parse", "parse_ctx", "parse_hold", "recovery", "format", "extract"], "pkg/formatter": ["format"], "pkg/sql/keywords": ["tokenize", "parse"]}
 
@@ -663,7 +664,41 @@ def run(tier):
         else:
             base["explanation"] = what + " — the lock-order instance lemma no longer holds for the regenerated acquisition table"
         rp.violation(base, "lockorder_" + re.sub(r"\W+", "_", mutex), no_input=not found)
-    if not ok_inst and not defects and not bad_cells and not lt["bad"]:
+    # ---- no lock leaked to the caller: no entry point may return while a mutex it took may still be held
+    rp.cov["lock_order"]["entry_points_with_mutex_operations"] = len(lt["exits"])
+    rp.obligation("no entry point of the library returns to its caller holding a mutex (%d entry points that touch a mutex; every return path unlocks or the unlock is deferred)" % len(lt["exits"]),
+                  not lt["leaks"], json.dumps(lt["leaks"])[:300])
+    leaks_by_mutex = {}
+    for e in lt["leaks"]:
+        for h in e["held"]:
+            leaks_by_mutex.setdefault(h.rsplit(":", 1)[0], []).append(e)
+    for mutex, es in sorted(leaks_by_mutex.items()):
+        # one report per leaked mutex: a private function that forgets to unlock leaks through every entry point that reaches it
+        pkgc = mutex.split(".")[0]
+        e = es[0]
+        rets = sorted((e.get("returns") or {}).items())
+        base = {"kind": "table-gap", "theorem": "Inst_C10.no_lock_leak_ok (C10_no_lock_leak_outside_holds_nothing)", "mutex": mutex,
+                "entry_points": [{"func": x["func"], "may_still_hold": x["held"], "returns_holding": [{"return_at": pos, "held": h} for pos, h in sorted((x.get("returns") or {}).items())][:4]} for x in es[:8]],
+                "entry_points_total": len(es), "model_witness": "Props.C10.C10_leaked_lock_blocks",
+                "acquired_at": [{"mutex": a["cell"], "mode": a["mode"], "func": a["func"], "pos": a["pos"]} for a in lt["acqs"] if a["cell"] == mutex][:8]}
+        what = "%s may return to its caller%s while %s is still held (no unlock on that path, none deferred%s): nobody can release it any more, every later Lock on it waits for ever" % (
+            e["func"], (" at " + ", ".join(p_ for p_, _ in rets[:3])) if rets else "", ", ".join(h for h in e["held"] if h.startswith(mutex)),
+            "; %d entry points in all" % len(es) if len(es) > 1 else "")
+        found = None
+        if not HANGS:
+            found, _ = hang_search(pkgc, quick)
+            evals += 1
+        if found:
+            base.update(found)
+            lock_hang = True
+            bg = found["blocked_goroutines"]
+            base["explanation"] = what + " — reproduced on the implementation: %d goroutines running %s did not finish within %d s; blocked: %s" % (
+                found["n"], found["ops"] or "all operations", found["watchdog_s"],
+                "; ".join("%d x %s at %s" % (g["count"], g["wait"], g["frames"][0] if g["frames"] else "?") for g in bg[:4]))
+        else:
+            base["explanation"] = what + " — the instance lemma no longer holds for the regenerated exit table"
+        rp.violation(base, "lockleak_" + re.sub(r"\W+", "_", mutex), no_input=not found)
+    if not ok_inst and not defects and not bad_cells and not lt["bad"] and not lt["leaks"]:
         rp.violation({"kind": "proof", "theorem": "Inst_C10", "log": logs["inst"][-3000:]}, "inst_c10", no_input=True)
     if ok_inst and not ok_props:
         rp.violation({"kind": "proof", "theorem": "Props/C10.v", "log": logs["props"][-3000:]}, "props_c10", no_input=True)
